@@ -57,6 +57,8 @@ type G struct {
 	// site since the last ResetLocal: a finite stand-in for the goroutine's local variables
 	// (e.g. which queue an AcquireMulti loop currently blocks on) in state keys.
 	hist []string
+	// demoted > 0: the goroutine was delayed in Demote mode; larger = delayed later = scheduled later
+	demoted int
 }
 
 // HistLen is the number of most recent lock requests kept per goroutine in state keys.
@@ -72,6 +74,12 @@ const (
 	// Delay: the default scheduler is deterministic (running first, then lowest id); every
 	// departure from it costs 1, also when the running goroutine blocked (delay bounding).
 	Delay
+	// Demote: delay bounding with a persistent effect (Emmi, Qadeer, Rakamaric 2011): the default
+	// scheduler runs the running goroutine first, then the others by (time of last delay, id);
+	// taking alternative i delays the i goroutines in front of it - they move behind every other
+	// goroutine and stay there - and costs i. One delay thus stalls a goroutine until all others
+	// have blocked or finished, which Delay can only express with one departure per forced switch.
+	Demote
 )
 
 type Config struct {
@@ -118,6 +126,8 @@ type Sched struct {
 	out    Outcome
 	nth    int
 	panics []any
+	// demoteSeq numbers the delays of Demote mode
+	demoteSeq int
 }
 
 func (s *Sched) me() *G {
@@ -406,6 +416,9 @@ func (s *Sched) ownKey(all []*G) string {
 		if len(g.hist) > 0 && !g.done {
 			sb.WriteString("{" + strings.Join(g.hist, ",") + "}")
 		}
+		if g.demoted > 0 && !g.done {
+			fmt.Fprintf(&sb, "^%d", g.demoted)
+		}
 		sb.WriteString(";")
 	}
 	if s.last != nil {
@@ -453,7 +466,15 @@ func (s *Sched) pick(en []*G) *G {
 		}
 	}
 	ord := en
-	if runIdx > 0 {
+	if s.cfg.Mode == Demote {
+		ord = append([]*G{}, en...)
+		sort.SliceStable(ord, func(i, j int) bool {
+			if (ord[i] == s.last) != (ord[j] == s.last) {
+				return ord[i] == s.last
+			}
+			return ord[i].demoted < ord[j].demoted
+		})
+	} else if runIdx > 0 {
 		ord = make([]*G, 0, len(en))
 		ord = append(ord, en[runIdx])
 		ord = append(ord, en[:runIdx]...)
@@ -485,8 +506,17 @@ func (s *Sched) pick(en []*G) *G {
 		if i == 0 || free {
 			return 0
 		}
+		if s.cfg.Mode == Demote {
+			return i
+		}
 		return 1
 	})
+	if s.cfg.Mode == Demote {
+		for _, g := range ord[:ch] {
+			s.demoteSeq++
+			g.demoted = s.demoteSeq
+		}
+	}
 	return ord[ch]
 }
 
